@@ -47,6 +47,21 @@ CHECKS = {
                 "goroutine may remain, the next connection must register, stay up and have a reset tracker.",
         "note": MC_NOTE + " Bounded time is judged against a 5 s deadline (25 s with flood control) plus a goroutine dump.",
     },
+    "C08": {
+        "engine": "Commands.tla", "level": "model_checking", "design_ref": "7 (C08)",
+        "technique": "TLA+ framing predicate WireOK + exact Encode; TLC enumerates the call universe (methods x poisoned positions x payloads x SplitLen), calls executed on a connected client, server-side bytes per call validated by TLC (trace validation); random byte strings added by the driver",
+        "text": "Commands.tla states what any call may put on the wire: CRLF-terminated lines without CR/LF inside, each starting with the method's verb. TLC enumerates every "
+                "method x argument position x payload (CR, LF, CRLF, injected commands, control bytes, 600 bytes) and the driver executes each call on a real connection, delimiting "
+                "the call's bytes with a random-token marker; TLC evaluates WireOK (verdict) and the exact encoding (drift only) on every record.",
+        "note": MC_NOTE,
+    },
+    "C11": {
+        "engine": "Commands.tla", "level": "model_checking", "design_ref": "7 (C11)",
+        "technique": "TLA+ predicate SplitOK evaluated by TLC on pieces recovered from the wire for every splitting method (enumerated + random texts incl. bytes >= 0x80, all SplitLen classes) and on a bounded-exhaustive small-text sweep of splitMessage",
+        "text": "SplitOK(text, SplitLen, pieces) is the property itself. Pieces are recovered from the wire lines of Privmsg/Privmsgln/Privmsgf/Notice/Ctcp/CtcpReply/Action calls and "
+                "checked by TLC; all texts of length 14..15 (17 thorough) over {a, space, '.'} for SplitLen 13/14 go through splitMessage with every suspicious result decided by TLC.",
+        "note": MC_NOTE + " The small-text sweep uses a transliterated SplitOK as pre-filter; only its failures and a sample of passes reach TLC.",
+    },
     "C12": {
         "engine": "Tracker.tla", "level": "model_checking", "design_ref": "7 (C12), 4.4",
         "technique": "TLA+ relational model; TLC closure of reachable states; every state-graph edge replayed on the real tracker + TLC trace validation of recorded random histories",
